@@ -37,12 +37,16 @@ def demo(repo, extra):
     return rc == 0, m, compiled, out
 
 
+SRC = "/tmp/seed"
+OFFSET = 0
+
+
 def verify(repo, pid, i):
-    src = "/tmp/seed/%s/out" % pid
+    src = "%s/%s/out" % (SRC, pid)
     patch = os.path.join(src, "patch%d.diff" % i)
     dem = os.path.join(src, "demo%d.rs" % i)
     notes = os.path.join(src, "notes%d.md" % i)
-    res = {"id": "%s-%d" % (pid, i), "property": pid, "confirmed": False, "steps": {}}
+    res = {"id": "%s-%d" % (pid, i + OFFSET), "property": pid, "confirmed": False, "steps": {}}
     if not (os.path.exists(patch) and os.path.exists(dem)):
         res["error"] = "missing deliverable"
         return res
@@ -119,6 +123,10 @@ def main():
     while i < len(args):
         if args[i] == "--workers":
             i += 1; workers = int(args[i])
+        elif args[i] == "--src":
+            i += 1; globals()["SRC"] = args[i]
+        elif args[i] == "--offset":
+            i += 1; globals()["OFFSET"] = int(args[i])
         else:
             ids.append(args[i])
         i += 1
